@@ -87,7 +87,7 @@ pub struct Analysis {
 }
 
 #[derive(Clone, Debug)]
-enum SessionKind { TopDown(Vec<Tid>), BottomUp { report: Vec<usize>, complete: bool, then_require: Vec<Tid>, pre_require: Vec<Tid>, shape: u8 } }
+enum SessionKind { TopDown(Vec<Tid>), BottomUp { report: Vec<usize>, complete: bool, then_require: Vec<Tid>, pre_require: Vec<Tid>, shape: u8, mid: Vec<(usize, Option<Val>)> } }
 
 /// One segment of a pie session: the builds up to and including one that aborted, or up to the end of the session.
 /// Sessions that are not continued after an abort have exactly one segment.
@@ -289,14 +289,15 @@ impl<'a> Runner<'a> {
           self.session(i, SessionKind::TopDown(roots), &fault, false);
           self.last_td = None;
         }
-        Step::BottomUp { report, then_require, pre_require, shape, keep_going } => {
+        Step::BottomUp { report, then_require, pre_require, shape, keep_going, mid } => {
           let (rep, complete) = match report {
             None => (self.changed.iter().copied().collect::<Vec<_>>(), !self.abort_dirty),
             Some(r) => { let r: Vec<usize> = r.iter().copied().filter(|x| *x < self.shadow.len()).collect(); let complete = !self.abort_dirty && self.changed.iter().all(|c| r.contains(c)); (r, complete) }
           };
           let then_require: Vec<Tid> = then_require.iter().copied().filter(|t| *t < self.prog.tasks.len()).collect();
           let pre_require: Vec<Tid> = pre_require.iter().copied().filter(|t| *t < self.prog.tasks.len()).collect();
-          self.session_kg(i, SessionKind::BottomUp { report: rep, complete, then_require, pre_require, shape: *shape }, &fault, false, *keep_going);
+          let mid: Vec<(usize, Option<Val>)> = mid.iter().copied().filter(|(r, _)| *r < self.shadow.len() && self.prog.resources[*r].fam < 2).collect();
+          self.session_kg(i, SessionKind::BottomUp { report: rep, complete, then_require, pre_require, shape: *shape, mid }, &fault, false, *keep_going);
           self.last_td = None;
         }
       }
@@ -335,7 +336,7 @@ impl<'a> Runner<'a> {
     let pie = &mut self.pie;
     let first_kind = match kind {
       SessionKind::TopDown(_) => SessionKind::TopDown(vec![]),
-      SessionKind::BottomUp { report, complete, pre_require, shape, .. } => SessionKind::BottomUp { report: report.clone(), complete: *complete, then_require: vec![], pre_require: pre_require.clone(), shape: *shape },
+      SessionKind::BottomUp { report, complete, pre_require, shape, mid, .. } => SessionKind::BottomUp { report: report.clone(), complete: *complete, then_require: vec![], pre_require: pre_require.clone(), shape: *shape, mid: mid.clone() },
     };
     let mut sb = SegBuilder { segs: vec![], kind: first_kind, start, roots_out: vec![] };
     let mut check_errors = vec![];
@@ -361,7 +362,7 @@ impl<'a> Runner<'a> {
         SessionKind::TopDown(roots) => {
           for t in roots.iter() { require_one(&mut session, &prog, *t, keep_going, &mut sb); }
         }
-        SessionKind::BottomUp { report, then_require, pre_require, shape, .. } => {
+        SessionKind::BottomUp { report, then_require, pre_require, shape, mid, .. } => {
           let mut bu_part = |session: &mut pie::Session, roots_out: &mut Vec<(Tid, Out)>| {
             if shape & 4 != 0 {
               // A build that gets the report and is dropped unused *before* the top-down phase: what it scheduled must
@@ -403,6 +404,23 @@ impl<'a> Runner<'a> {
               }
               log(Ev::BuEnd);
             }
+            if !mid.is_empty() {
+              // The outside party edits resources while the session stays open, and reports the batch to a further build.
+              let mut rep2: Vec<usize> = vec![];
+              for (r, v) in mid.iter() {
+                let key = prog.resources[*r];
+                with_sim(|s| { s.pending_edits.push((key, *v)); s.log.push(Ev::MidChange { res: key, new: *v }); });
+                if !rep2.contains(r) { rep2.push(*r); }
+              }
+              log(Ev::BuStart);
+              {
+                let mut bu = session.create_bottom_up_build();
+                for r in rep2.iter() { schedule(&mut bu, prog.resources[*r]); }
+                log(Ev::BuScheduled);
+                bu.update_affected_tasks();
+              }
+              log(Ev::BuEnd);
+            }
           };
           if keep_going {
             let mut ro = vec![];
@@ -420,6 +438,8 @@ impl<'a> Runner<'a> {
       check_errors = session.dependency_check_errors().map(|e| e.to_string()).collect();
     });
     with_sim(|s| { s.faults = FaultPlan::default(); });
+    // External edits that no access has applied yet (the session is over: pie's resource state is reachable again).
+    { let _ = sim_world::<0, _>(self.pie.resource_state_mut::<R<0>>()); let _ = sim_world::<1, _>(self.pie.resource_state_mut::<R<1>>()); }
     sb.close(r.err(), true);
     let mut segs = sb.segs;
     if let Some(l) = segs.last_mut() { l.check_errors = check_errors; }
@@ -456,7 +476,7 @@ impl<'a> Runner<'a> {
     if last { return self.real_world(); }
     let prog = self.prog.clone();
     let mut w = before.to_vec();
-    for e in slice.iter() { if let Ev::ResSet { res, new, .. } = e { if let Some(i) = prog.res_index(*res) { w[i] = *new; } } }
+    for e in slice.iter() { if let Ev::ResSet { res, new, .. } | Ev::MidChange { res, new } = e { if let Some(i) = prog.res_index(*res) { w[i] = *new; } } }
     w
   }
 
@@ -564,7 +584,7 @@ impl<'a> Runner<'a> {
       self.abort_dirty = true;
       // The world must hold exactly the writes that the task-side log says happened.
       let mut expect = before.clone();
-      for e in slice.iter() { if let Ev::ResSet { res, new, .. } = e { if let Some(i) = prog.res_index(*res) { expect[i] = *new; } } }
+      for e in slice.iter() { if let Ev::ResSet { res, new, .. } | Ev::MidChange { res, new } = e { if let Some(i) = prog.res_index(*res) { expect[i] = *new; } } }
       let real = self.world_after(last, &before, &slice);
       if real != expect { self.viol(&["C19"], "abort-world", step, format!("after the aborted build the resources hold {:?}, the writes that happened give {:?}", real, expect)); }
       self.stats.hit(&format!("abort_{:?}", abort.kind));
@@ -591,7 +611,9 @@ impl<'a> Runner<'a> {
           self.diag_aborts += 1;
           // In a session that goes on reusing a task whose input an aborted build of the same session modified, the
           // tasks no longer behave as they would in a from-scratch build of the current state: nothing to compare with.
-          if tainted_before { self.stats.hit("abort_in_tainted_session_not_judged"); } else
+          // Likewise after an external change inside the open session: an execution that ran on a memoised output
+          // (and would have been repaired later in the build) can leave records that no state of the program produces.
+          if tainted_before || slice.iter().any(|e| matches!(e, Ev::MidChange { .. })) { self.stats.hit("abort_in_tainted_session_not_judged"); } else
           { self.judge_diagnostic_abort(step, abort, &analysis, &before, &real, store_differs); }
         }
         AbortKind::Other => { self.harness_error = Some(format!("unexpected panic outside the repository: {}", abort.info.short())); }
@@ -606,8 +628,16 @@ impl<'a> Runner<'a> {
     if last { let _ = self.check_store_dump(step, false); }
     if self.vs.iter().any(|v| v.concerns(self.prop)) { return true; }
 
-    // The session returned: from-scratch equality.
+    // The session returned: from-scratch equality (the external state includes what was edited while the session was open).
     let roots: Vec<Tid> = res.roots_out.iter().map(|(t, _)| *t).collect();
+    let mut before = before;
+    let mid_session = slice.iter().any(|e| matches!(e, Ev::MidChange { .. }));
+    // The state against which the last build of such a session ran: everything written before the change (by the
+    // earlier builds of the session) and the change itself.
+    if let Some(last_mid) = slice.iter().rposition(|e| matches!(e, Ev::MidChange { .. })) {
+      for e in slice[..=last_mid].iter() { if let Ev::ResSet { res, new, .. } | Ev::MidChange { res, new } = e { if let Some(i) = prog.res_index(*res) { before[i] = *new; } } }
+    }
+    if mid_session { self.stats.hit("fault_external_change_inside_open_session"); }
     let mut clean = Clean::new(&prog, before.clone());
     let (check_world, clean_roots): (bool, Vec<Tid>) = match &kind {
       SessionKind::TopDown(_) => (true, roots.clone()),
@@ -636,7 +666,9 @@ impl<'a> Runner<'a> {
     let unclaimed_bu = matches!(kind, SessionKind::BottomUp { .. }) && (dirty_at_start || !stale_before.is_empty());
     let tainted = unclaimed_bu || carried_unclaimed || (!fault_free && (fault.read_err_at.is_some() || fault.write_err_at.is_some()));
     if clean.ill.is_empty() && !tainted {
-      for (t, out) in res.roots_out.iter() {
+      // Outputs handed out before an external change inside the session belong to the state before that change.
+      let stale_roots = slice.iter().position(|e| matches!(e, Ev::MidChange { .. })).map(|m| slice[..m].iter().filter(|e| matches!(e, Ev::RootEnd { .. })).count()).unwrap_or(0);
+      for (t, out) in res.roots_out.iter().skip(stale_roots) {
         if expected.get(t) != Some(out) {
           let props: &[&str] = match &kind { SessionKind::TopDown(_) => &["C01"], SessionKind::BottomUp { .. } => &["C01", "C03"] };
           let props: Vec<&str> = if self.aborted_before && matches!(kind, SessionKind::TopDown(_)) { let mut p = props.to_vec(); p.push("C19"); p } else { props.to_vec() };
@@ -654,7 +686,11 @@ impl<'a> Runner<'a> {
               let chk = write_checker_of(&prog, w, r).unwrap_or(RK::Exact);
               chk.observe(real[r]) == chk.observe(clean.world[r])
             }
-            None => real[r] == before[r],
+            // Not written by the from-scratch build: untouched. (In a session with an external change inside it, an
+            // execution that ran on a memoised output and was repaired later in the same build may have left a write
+            // behind that no from-scratch build makes; C03 speaks about outputs, C01 about resources that the tasks of
+            // the from-scratch build write.)
+            None => real[r] == before[r] || (mid_session && slice.iter().any(|e| matches!(e, Ev::ResSet { res, .. } if prog.res_index(*res) == Some(r)))),
           };
           if !equal {
             let props: &[&str] = match &kind { SessionKind::TopDown(_) => &["C01"], SessionKind::BottomUp { .. } => &["C03"] };
@@ -1004,6 +1040,10 @@ impl<'a> Runner<'a> {
     let is_repeat = is_repeat && !zst_program;
     let probe_after_bu = matches!(kind, SessionKind::TopDown(_)) && self.last_bu_complete && self.changed.is_empty() && fault_free && !zst_program;
     let mut in_bu_phase = false;
+    // After an external change inside the open session the session's memo of consistent tasks is out of date: pie
+    // may hand out a memoised output to a requiring task and repair that later in the same build (second execution).
+    // Only the end state is claimed then (O1 / O3); the per-build once / order / reuse rules are suspended.
+    let (mut mid_seen, mut mid_idx) = (false, 0usize);
     let mut builds_started = 0u32;
     let mut exec_count = vec![0u32; ntasks];
     let mut executed: BTreeSet<Tid> = BTreeSet::new();
@@ -1045,13 +1085,16 @@ impl<'a> Runner<'a> {
           builds_started += 1;
           // "At most once" is a statement per build; only under injected checker errors can a task legitimately run
           // again in the next phase of the same session (a persistent error makes every validation fail).
-          if !fault_free { for c in exec_count.iter_mut() { *c = 0; } }
+          if !fault_free || mid_seen { for c in exec_count.iter_mut() { *c = 0; } }
         }
         Ev::BuDropped => { in_bu_phase = false; pending.clear(); order_candidates.clear(); }
         Ev::BuScheduled => {
           // Every recorded read / write dependency on a reported resource must have been checked by now.
           if let SessionKind::BottomUp { report, .. } = kind {
-            let checked: BTreeSet<u64> = slice[..i].iter().filter_map(|e| if let Ev::RCheck { serial, .. } = e { Some(*serial) } else { None }).collect();
+            let checked: BTreeSet<u64> = slice[mid_idx..i].iter().filter_map(|e| if let Ev::RCheck { serial, .. } = e { Some(*serial) } else { None }).collect();
+            // The build after a change inside the session received that batch as its report.
+            let mid_report: Vec<usize> = if mid_seen { slice.iter().filter_map(|e| if let Ev::MidChange { res, .. } = e { prog.res_index(*res) } else { None }).collect() } else { vec![] };
+            let report: &Vec<usize> = if mid_seen { &mid_report } else { report };
             'outer: for r in report.iter() {
               let key = prog.resources[*r];
               for t in 0..ntasks {
@@ -1059,7 +1102,7 @@ impl<'a> Runner<'a> {
                 if !rec.completed { continue; }
                 // A task that the session already holds as consistent (validated or executed earlier in this session)
                 // needs no further check: resources do not change while a session is open.
-                if executed.contains(&t) || validated_ok.contains(&t) { continue; }
+                if !mid_seen && (executed.contains(&t) || validated_ok.contains(&t)) { continue; }
                 for d in rec.deps.iter() {
                   if d.target == Target::Res(key) && !d.serials.iter().any(|s| checked.contains(s)) {
                     // After a checker error in this session the omission is (also) the error cutting validation short.
@@ -1085,7 +1128,7 @@ impl<'a> Runner<'a> {
           let pass_before = pass[*t].clone();
           let deps_before: Vec<(DepKind, Target)> = self.ledger[*t].as_ref().map(|e| e.deps.iter().map(|d| (d.kind, d.target)).collect()).unwrap_or_default();
           exec_count[*t] += 1;
-          if exec_count[*t] > 1 {
+          if exec_count[*t] > 1 && !mid_seen {
             let props: &[&str] = if in_bu_phase { &["C04"] } else { &["C02"] };
             if in_bu_phase && aborted_at_start[*t] { probes[6] = true; } else {
               v(props, "executed-twice", format!("task {t} entered execute {} times in one session", exec_count[*t]));
@@ -1107,7 +1150,7 @@ impl<'a> Runner<'a> {
               }
               // Order: no scheduled task that t (transitively) requires may still be waiting.
               for (q, _) in pending.iter() {
-                if q != t && ledger_path(&self.ledger, &old, *t, *q) { order_candidates.push((*t, *q)); }
+                if !mid_seen && q != t && ledger_path(&self.ledger, &old, *t, *q) { order_candidates.push((*t, *q)); }
               }
             } else {
               let p = &pass[*t];
@@ -1206,13 +1249,14 @@ impl<'a> Runner<'a> {
                 bu_reused.insert(u);
                 // Reuse during a bottom-up build: nothing scheduled may be reachable from u.
                 for (q, _) in pending.iter() {
+                  if mid_seen { break; }
                   if *q == u || ledger_path(&self.ledger, &old, u, *q) {
                     v(&["C03"], "bu-stale-reuse", format!("task {t} required task {u} during a bottom-up build and got its cached output although task {q}, which {u} (transitively) requires, was still scheduled"));
                     break;
                   }
                 }
               }
-            } else if !executed.contains(&u) && !validated_ok.contains(&u) && !bu_reused.contains(&u) {
+            } else if !mid_seen && !executed.contains(&u) && !validated_ok.contains(&u) && !bu_reused.contains(&u) {
               let nd = self.ledger[u].as_ref().map(|e| e.deps.len()).unwrap_or(0);
               let p = &pass[u];
               if !(p.started && !p.ended_incons && p.checked.len() >= nd) && nd > 0 {
@@ -1251,7 +1295,7 @@ impl<'a> Runner<'a> {
           if cur != Some(*out) {
             v(&["C01", "C15"], "require-output-mismatch", format!("Session::require of task {t} returned {:?}, but its latest completed execution produced {:?}", out, cur));
           }
-          if !executed.contains(t) && !validated_ok.contains(t) && !bu_reused.contains(t) {
+          if !mid_seen && !executed.contains(t) && !validated_ok.contains(t) && !bu_reused.contains(t) {
             let nd = self.ledger[*t].as_ref().map(|e| e.deps.len()).unwrap_or(0);
             let p = &pass[*t];
             if !(p.started && !p.ended_incons && p.checked.len() >= nd) && nd > 0 {
@@ -1390,6 +1434,11 @@ impl<'a> Runner<'a> {
             }
           }
         }
+        Ev::MidChange { .. } => {
+          mid_seen = true; mid_idx = i;
+          // What was executed or validated before the change says nothing about the state after it.
+          executed.clear(); validated_ok.clear(); bu_reused.clear();
+        }
         Ev::Trk(_) | Ev::SessionStart(_) | Ev::Continue => {}
       }
     }
@@ -1456,7 +1505,7 @@ impl<'a> Runner<'a> {
       // when pie never asks the checker. A task that was reused although such a dependency is inconsistent now was
       // not validated by its checker (top-down: every task handed out; bottom-up: every known task whose dependency
       // target was reported, written or re-executed in this build).
-      if zst_program && fault_free {
+      if zst_program && fault_free && !mid_seen {
         let mut world: Vec<Option<Val>> = before.to_vec();
         let mut touched_res: BTreeSet<ResKey> = BTreeSet::new();
         let mut bu_executed: BTreeSet<Tid> = BTreeSet::new();
